@@ -67,6 +67,9 @@ def run(ctx):
     ctx.trusted = ["panic-freedom and termination inside cbor-smol 0.5.1, serde_core, heapless 0.7.17, heapless-bytes, serde_bytes, cosey, core (not decided here)",
                    "the deny table of contract-panicking APIs (rules/oblig_mono.py)", "rustc MIR at -Zmir-opt-level=0 contains an Assert for every checked operation"]
     ctx.assumptions = ["debug-assertion / overflow-check build semantics (Assert terminators present)", "C13's paper argument for the floor template"]
+    # decoding must not panic with logging compiled in either: the arguments of every log statement on the decode path are total
+    from . import logargs
+    logargs.check(ctx, "C04", mono_root=ROOT, min_statements=1)
     for cfg, F in ctx.facts.items():
         r = F.mono_root(ROOT)
         if not ctx.oblige("C04|root", r is not None and "inst" in r, "anchor missing: mono root ctap2::Request::deserialize", cfg=cfg):
